@@ -25,9 +25,18 @@ type atomicPolicy struct {
 	crashRate int
 	kinds     map[string][]string
 	budget    int
+	srcRead   bool
 }
 
 func (p *atomicPolicy) Decide(s *sched.Sim, op sched.Op) sched.Decision {
+	if p.srcRead {
+		// the source-read variant: the only failure is the k-th read of the object being copied
+		if strings.HasPrefix(op.Proc, "w") && op.Kind == "read" && strings.HasPrefix(op.Path, "src:") && p.budget > 0 && s.Tape.Draw("srcfault?", 3) == 1 {
+			p.budget--
+			return sched.Decision{Fault: "read-err"}
+		}
+		return sched.Decision{}
+	}
 	if !strings.HasPrefix(op.Proc, "w") || !strings.HasPrefix(op.Path, "dst:") {
 		return sched.Decision{}
 	}
@@ -95,8 +104,16 @@ func runAtomic(r *runner) *engine.Outcome {
 	} else {
 		pol.kinds = map[string][]string{"put": {"put-err"}, "write": {"write-err", "short-write"}, "close": {"close-err", "rename-err"}}
 	}
+	// source-read variant: an atomic copy whose SOURCE fails to deliver its k-th chunk (violations carry their
+	// own signature namespace, like those seen through the limit view)
+	srcRead := method == "Copy" && (backend == "os" || backend == "osmap") && tp.Draw("b.srcread", 3) == 2
+	if srcRead {
+		ns = "C15|source-read|"
+		pol.srcRead, pol.budget = true, 1
+		s.Probe("atomic-copy-with-failing-source")
+	}
 	s.Policy = pol
-	s.Event("caseB backend=%s hasOld=%v writers=%d readers=%d method=%s target=%s", backend, hasOld, nWriters, nReaders, method, target)
+	s.Event("caseB backend=%s hasOld=%v writers=%d readers=%d method=%s target=%s srcread=%v", backend, hasOld, nWriters, nReaders, method, target, srcRead)
 
 	dir := filepath.Join(r.env.Scratch, "b", "root")
 	if err := os.MkdirAll(dir, 0o755); err != nil {
@@ -235,7 +252,11 @@ func runAtomic(r *runner) *engine.Outcome {
 				if err != nil {
 					panic(err)
 				}
-				_, werrs[i] = storage.Copy(ctx, src, bucket, storage.CopyWithAtomic())
+				if srcRead {
+					_, werrs[i] = storage.Copy(ctx, &simfs.Bucket{S: s, U: simfs.ReadOnly(src), Name: "src", YieldReads: true}, bucket, storage.CopyWithAtomic())
+				} else {
+					_, werrs[i] = storage.Copy(ctx, src, bucket, storage.CopyWithAtomic())
+				}
 			}
 			wdone[i] = true
 		})
